@@ -3,7 +3,14 @@
 SPECIFICATION Spec
 CONSTANTS
   MaxChunks = 0
-  MaxSize = 0
+  UnitSizes = {0}
+  UnitKinds = {"fmt"}
+  IfaceSets = {{}}
+  Route = "fmt"
+  MaxWrite = 0
+  PieceCount = "piece"
+  LatchBy = "test"
+  CachedViews = FALSE
   LatchError = TRUE
   CountAccepted = TRUE
   KeepFirstError = FALSE
